@@ -157,4 +157,4 @@ Qed.
 
 (* non-vacuity: a cubic piece with end 2.5 and knot (0.75, -1.2) *)
 Example C11_knot_float_hypotheses_hold : safe (map of_bits [4612811918334230528; 4607632778762754458; 13835733595226269286; 4604480259023595110; 4615964438073389875; 4604930618986332160; 13831455175580267315]%Z) e_segknot3.
-Proof. apply safeb_sound; vm_compute; reflexivity. Qed.
+Proof. apply safe1_sound; vm_compute; reflexivity. Qed.
